@@ -18,7 +18,10 @@ use crate::stream::Stream;
 use std::sync::Arc;
 
 use tokio::io::AsyncWriteExt;
+#[cfg(not(humphrey_verif))]
 use tokio::net::{TcpListener, TcpStream, ToSocketAddrs};
+#[cfg(humphrey_verif)]
+use humsim::tokio_net::{TcpListener, TcpStream, ToSocketAddrs};
 use tokio_util::sync::CancellationToken;
 
 #[cfg(feature = "tls")]
